@@ -80,8 +80,8 @@ def main(run: Run):
     seed = run.seed
 
     # 1. design level: the mechanism layer of Packing.tla against its property layer, exhaustively
-    #    over small pools (repaired shape holds everywhere; code shape holds except exactly in the
-    #    known-finding shape; the pre-f403483 de-duplication fails exactly in LocalIdShape)
+    #    over small pools (code shape holds everywhere; without the 9eb707a clamp it fails exactly in
+    #    the no-room shape; the pre-f403483 de-duplication fails exactly in LocalIdShape)
     if not run.replay:
         mc(run, "keys", "ApNone", 4096, 3, False, DESIGN_INVS, "MCPacking keys ap=none len<=3")
         mc(run, "sizes", "ApNone", 100, 3, False, DESIGN_INVS, "MCPacking sizes ap=none limit=100 len<=3")
@@ -98,9 +98,11 @@ def main(run: Run):
         behs = run.replay_behaviours("exh")
     else:
         behs = []
-        for pool, ap, ml in ([("keys1", "ApNone", 3), ("keys1", "ApAll", 3), ("keys6", "ApNone", 2), ("keys6", "ApAll", 2)]
+        for pool, ap, ml in ([("keys1", "ApNone", 3), ("keys1", "ApAll", 3), ("keys6", "ApNone", 2), ("keys6", "ApAll", 2),
+                              ("keysm", "ApNone", 3)]
                              if not thorough else
-                             [("keys1", "ApNone", 4), ("keys1", "ApAll", 4), ("keys6", "ApNone", 3), ("keys6", "ApAll", 3)]):
+                             [("keys1", "ApNone", 4), ("keys1", "ApAll", 4), ("keys6", "ApNone", 3), ("keys6", "ApAll", 3),
+                              ("keysm", "ApNone", 4), ("keysm", "ApAll", 3)]):
             behs += mc(run, pool, ap, 4096, ml, True, ["D_FoldIsDecl", "D_Repaired"],
                        "MCPacking %s %s len<=%d (emitted)" % (pool, ap, ml))
     exec_validate(run, "exh", behs)
@@ -113,14 +115,14 @@ def main(run: Run):
         behs = []
         for i, (scn, num, steps) in enumerate([("small", 300 if not thorough else 3000, 10 if not thorough else 12),
                                                ("bound", 300 if not thorough else 3000, 10 if not thorough else 12),
-                                               ("fill", 60 if not thorough else 400, 2)]):
+                                               ("fill", 60 if not thorough else 400, 2),
+                                               ("noroom", 40 if not thorough else 300, 8)]):
             behs += gen(run, scn, num, steps, 100, seed * 100 + i)
     exec_validate(run, "sim", behs)
 
-    #    the zones of the known findings, validated apart (every trace there fails the strict cfg
+    #    the zone of the open known finding (as2-growth), validated apart (every trace there fails the strict cfg
     #    while the finding is open, and the framework re-validates once per failing trace)
-    for i, (scn, num, steps) in enumerate([("noroom", 6 if not thorough else 18, 8),
-                                           ("as2fill", 4 if not thorough else 12, 2)]):
+    for i, (scn, num, steps) in enumerate([("as2fill", 4 if not thorough else 12, 2)]):
         behs = run.replay_behaviours(scn) if run.replay else gen(run, scn, num, steps, 100, seed * 100 + 10 + i)
         exec_validate(run, scn, behs, batch=max(1, len(behs or [])))
 
@@ -137,7 +139,7 @@ def main(run: Run):
 RULE = ("behaviours = (a) EVERY list up to length 3/4 over a one-prefix pool (2 local ids x 2 attribute sets x "
         "announce/withdraw, second prefix, End-of-RIB; v4 and v6; ADD-PATH off/on) enumerated by TLC, (b) TLC "
         "-simulate lists over 3 families x 2-3 prefixes x 3 local ids x 3 attribute sets x the family's next hops "
-        "(v4 with v4 / v6 / v6+link-local next hop, v6, vpnv4) x ADD-PATH subsets x extended message x forced hash "
+        "(v4 with NEXT_HOP / with an IPv4 next hop carried only in MP_REACH_NLRI / v6 / v6+link-local next hop, v6, vpnv4) x ADD-PATH subsets x extended message x forced hash "
         "collision, (c) boundary lists whose big attribute block leaves -8..40 octets of NLRI room under 4096 / "
         "65535, and lists of 33..63 same-length prefixes whose NLRI fill that room exactly / to one octet short "
         "of one more NLRI, (d) 10^4..2*10^4-prefix instances; each executed on the real table.CreateUpdateMsgFromPaths, "
